@@ -24,6 +24,7 @@ UNITS = {
     "u34_delta_agg": {"verus": "specs/u34_delta_agg.vt.rs"},
     "u35_rle_track": {"verus": "specs/u35_rle_track.vt.rs"},
     "u36_bool_load": {"verus": "specs/u36_bool_load.vt.rs"},
+    "u37_readonly_sync": {"verus": "specs/u37_readonly_sync.vt.rs"},
     "u22_loadnext": {"verus": "specs/u22_loadnext.vt.rs"},
     "u23_exid_order": {"verus": "specs/u23_exid_order.vt.rs"},
     "u24_changeparse": {"verus": "specs/u24_changeparse.vt.rs"},
@@ -194,6 +195,20 @@ PROPERTIES.update({
                        "(seq <= highest applied seq of the actor); on the real admission loop of Automerge::apply_changes_batch_log_patches that a batch is admitted only if none of its new changes claims an applied or queued "
                        "(actor, seq), and that the loop establishes the precondition of ChangeQueue::extend (so the queue's index invariant is never broken there); "
                        "and that transaction_args drops the conflicting queued branch for exactly (actor, seq) before returning.",
+    },
+    "C22": {
+        "level": "proof",
+        "verus": [("u37_readonly_sync", "*")],
+        "kani": [],
+        "not_under_contract": ["generate_sync_message (the second clause: the other peer still receives the read-only peer's changes)", "the multi-message exchange after switching back to read-write (third clause: 'eventually receives every change it skipped' is a liveness property of the protocol; "
+                               "only its trigger -- set_read_only arms needs_reset -- is under contract)", "receive_sync_message (the public wrapper that decodes and calls receive_sync_message_inner)",
+                               "the head-set iterator chains inside receive_sync_message_inner (trusted wrappers matched on their exact text; they take the document by shared reference)"],
+        "trusted": ["Automerge as an opaque value whose equality is equality of the whole document; every callee other than load_incremental_log_patches takes &self (their signatures are restated in the environment)"],
+        "assumptions": ["C22 is claimed for its first clause only, as a frame condition of one function; the two other clauses are protocol-level (not_under_contract)"],
+        "explanation": "Verus proves on the real text of Automerge::receive_sync_message_inner: if the sync state is read-only on entry, the document on exit equals the document on entry, for every message "
+                       "(changes present or not, any flags) and on the error exits as well -- the one mutating callee, load_incremental_log_patches, carries no postcondition, so the obligation is that it is unreachable "
+                       "in that mode -- and receiving never flips the mode. On the real State::set_read_only: the mode becomes the argument; leaving read-only mode arms needs_reset and keeps the peer's capabilities; "
+                       "entering it keeps shared_heads / sent_hashes.",
     },
     "C10": {
         "level": "proof",
@@ -369,7 +384,6 @@ NOT_APPLICABLE = {
     "C18": "change columns/bundles need hexane columns (CBMC > 10 min at 3 elements); only the chunk header is within reach and is used under C10/C14",
     "C20": "schedule-quantified protocol property over two documents; the sync state machine sits in iterator/HashSet code over documents",
     "C21": "same as C20 with several peers",
-    "C22": "the read-only guard sits in receive_sync_message_inner (document + iterator chains); only State::set_read_only is a leaf",
     "C24": "index consistency through edits needs documents (op-set text index); the only leaf within reach, TextEncoding::width, could be checked only as a BOUNDED Kani stand-in (all UTF-8 strings <= 2..4 bytes, "
            "harness u08_width_laws_* kept in kani/automerge/src__types.rs) that costs ~8 min per run whatever the bound and catches none of the realistic breakages of this property (grapheme rules, expose/seq_length widths): withdrawn as DESIGN.md allowed",
     "C25": "MarkStateMachine sits on Arc<BTreeMap<SmolStr,ScalarValue>> (CBMC blow-up, not Verus-able) and needs documents",
